@@ -70,9 +70,22 @@ class World(object):
 
         # publish the messages (they sit in the FIFOs until delivered)
         for i, (kind, side, fwd, origin) in enumerate(messages):
-            msg = {'cmd': 'test', 'arg': {'id': i}}
-            if fwd    is not None: msg['fwd']    = fwd
-            if origin is not None: msg['origin'] = origin
+            if fwd == 'rpc_req':
+                # typed messages as Component.rpc() publishes them (their
+                # class default says fwd=True)
+                from radical.pilot.messages import RPCRequestMessage
+                msg = RPCRequestMessage(uid='rpc.%d' % i, cmd='test',
+                                        args=[], kwargs={})
+                msg = msg.as_dict()
+                msg['arg'] = {'id': i}
+            elif fwd == 'rpc_res':
+                from radical.pilot.messages import RPCResultMessage
+                msg = RPCResultMessage(uid='rpc.%d' % i, val=1).as_dict()
+                msg['arg'] = {'id': i}
+            else:
+                msg = {'cmd': 'test', 'arg': {'id': i}}
+                if fwd    is not None: msg['fwd']    = fwd
+                if origin is not None: msg['origin'] = origin
             self.pubs[(side, kind)].put(LOCAL[kind], msg)
         self.n_deliveries = 0
 
@@ -186,6 +199,10 @@ def message_alphabet(n_pilots):
             for fwd in (None, False, True):
                 for origin in [None, side] + others + ['elsewhere']:
                     out.append((kind, side, fwd, origin))
+    # typed RPC messages travel on the control pubsub
+    for side in sides:
+        out.append(('control', side, 'rpc_req', None))
+        out.append(('control', side, 'rpc_res', None))
     return out
 
 
@@ -214,7 +231,8 @@ def run(ctx):
             _jobs.append((n_pilots, (m,)))
         if n_pilots <= (1 if ctx.quick else 2):
             # pairs of messages: interleaved deliveries
-            red = [m for m in alpha if m[2] is True or m[3] is not None]
+            red = [m for m in alpha if m[2] is True or m[3] is not None
+                                       or isinstance(m[2], str)]
             for a, b in itertools.product(red, repeat=2):
                 if a[0] == b[0] or ctx.quick is False:
                     _jobs.append((n_pilots, (a, b)))
